@@ -47,7 +47,7 @@ var quickTargets = func() []int {
 	var idx []int
 	for i, t := range targets {
 		f := t.msg.Fields[0]
-		key := fmt.Sprint(f.Elem.Kind, f.Elem.Enc, f.Wrap, f.Key)
+		key := fmt.Sprint(f.Elem.Kind, f.Elem.Enc, f.Wrap, f.Key, f.KeyEnc)
 		if f.Elem.Kind == pgen.Message {
 			key = fmt.Sprint("msg", f.Wrap, len(f.Elem.Msg.Fields), f.Elem.Msg.Fields)
 			if len(key) > 60 {
